@@ -878,6 +878,16 @@ func (f *fnTrans) ret(ins *ssa.Return) {
 	for i, cl := range f.c.Ensures {
 		t, err := env.EvalBool(cl.Expr)
 		if err != nil {
+			if strings.Contains(err.Error(), "unknown identifier") {
+				// the clause names something the code no longer has: an obligation that cannot be discharged
+				o := f.oblige("post", fmt.Sprintf("ensures %s  [cannot be stated on this code: %v]", cl.Src, err), ins.Pos(), f.propsOf(cl), f.here(), False)
+				nm := fmt.Sprintf("post%d", i)
+				if cl.Name != "" {
+					nm = "post:" + cl.Name
+				}
+				o.Name = fmt.Sprintf("%s/%s@ret%d", f.name, nm, ord)
+				continue
+			}
 			f.unsupported("%s: ensures %q: %v", cl.Line, cl.Src, err)
 			continue
 		}
